@@ -1257,6 +1257,10 @@ class ReadParquetFSSpec(ReadParquet):
         return dataset_info
 
     def _filtered_task(self, index: int):
+        if self._plan["empty"]:
+            # The cached plan is shared between all column selections of
+            # this dataset, so the (column dependent) meta can't be part of it
+            return (identity, self._meta)
         tsk = (self._io_func, self._plan["parts"][index])
         if self._series:
             return (operator.getitem, tsk, self.columns[0])
@@ -1302,9 +1306,9 @@ class ReadParquetFSSpec(ReadParquet):
 
             empty = False
             if len(divisions) < 2:
-                # empty dataframe - just use meta
+                # empty dataframe - just use meta (see _filtered_task)
                 divisions = (None, None)
-                parts = [self._meta]
+                parts = [None]
                 empty = True
 
             _control_cached_plan(dataset_token)
